@@ -9,6 +9,7 @@ import (
 	"github.com/buzzfeed/sso/internal/pkg/aead"
 	"github.com/buzzfeed/sso/internal/pkg/sessions"
 	"github.com/buzzfeed/sso/internal/proxy"
+	"github.com/buzzfeed/sso/verifsim/simnet"
 )
 
 // pendingFlow is a login flow stopped just before one of its hops.
@@ -600,12 +601,29 @@ func (d *Driver) restart(st *Step) {
 	d.Res.fault("process.restart." + st.Sub)
 	d.Res.FaultFree = false
 	switch st.Sub {
-	case "proxy":
-		w.StopNode(ProxyNode)
+	case "proxy", "proxy-mid-request":
+		if st.Sub == "proxy-mid-request" {
+			// crash while a request is in flight: the request's due check is held up on L2 for 100 ms, the node dies at +50 ms
+			w.Net.Arm("proxy>"+AuthHost, simnet.Fault{Kind: simnet.FaultDelay, Count: 1, Dur: 100 * time.Millisecond})
+			done := make(chan struct{})
+			go func() {
+				defer close(done)
+				b := w.Browser(st.B)
+				b.Do(d.reqOf(st))
+			}()
+			time.Sleep(50 * time.Millisecond)
+			w.StopNode(ProxyNode)
+			<-done
+			w.Net.Disarm("proxy>" + AuthHost)
+		} else {
+			w.StopNode(ProxyNode)
+		}
 		if st.NewCfg != nil {
 			w.Cfg = *st.NewCfg
+			w.ProxyCipher, _ = aead.NewMiscreantCipher(w.Cfg.ProxyCookieSecret())
 			d.O.m = NewModel(w.Cfg)
 			d.O.certs = nil
+			d.P.Cfg = w.Cfg
 		}
 		if err := w.BootProxy(); err != nil {
 			w.Log.Note("proxy restart failed: %v", err)
